@@ -34,9 +34,14 @@ impl Tier {
     }
     /// pick a case count by tier
     pub fn pick(self, quick: u32, thorough: u32) -> u32 {
-        match self {
+        let n = match self {
             Tier::Quick => quick,
             Tier::Thorough => thorough,
+        };
+        // development aid only: VERIF_SCALE=0.1 runs a tenth of the cases
+        match std::env::var("VERIF_SCALE").ok().and_then(|s| s.parse::<f64>().ok()) {
+            Some(f) if f > 0.0 => ((n as f64 * f) as u32).max(1),
+            _ => n,
         }
     }
 }
@@ -170,10 +175,20 @@ pub fn install_panic_hook() {
         } else {
             "<non-string panic>".to_string()
         };
-        let loc = info
+        let mut loc = info
             .location()
             .map(|l| format!("{}:{}", l.file(), l.line()))
             .unwrap_or_default();
+        if !loc.contains("oxidize-pdf-core") && !loc.contains("/verif/harness") {
+            // the panic was raised inside std/core or a dependency (e.g. Iterator::sum overflow):
+            // name the innermost frame of the library under test instead
+            let bt = std::backtrace::Backtrace::force_capture().to_string();
+            if let Some(f) = bt.lines().map(|l| l.trim()).find(|l| l.contains("oxidize_pdf::")) {
+                let f = f.split_once(": ").map(|x| x.1).unwrap_or(f);
+                let f = f.split("::h").next().unwrap_or(f);
+                loc = format!("oxidize-pdf-core/{}:0", f.replace(' ', ""));
+            }
+        }
         let quiet = QUIET_PANIC.with(|q| *q.borrow());
         LAST_PANIC.with(|p| *p.borrow_mut() = Some((msg, loc)));
         if !quiet {
@@ -441,6 +456,8 @@ impl Ctx {
         let mut runner = TestRunner::new_with_rng(config, rng);
         let failed = AtomicBool::new(false);
         let shrink_evals = std::sync::atomic::AtomicU32::new(0);
+        let first_sig: Mutex<Option<String>> = Mutex::new(None);
+        let first_case: Mutex<Option<C>> = Mutex::new(None);
         let shrink_budget = self.shrink_budget.load(Ordering::Relaxed);
         let res = runner.run(&strat, |case| {
             if failed.load(Ordering::Relaxed) && shrink_evals.fetch_add(1, Ordering::Relaxed) >= shrink_budget {
@@ -465,6 +482,8 @@ impl Ctx {
                 Ok(())
             } else {
                 failed.store(true, Ordering::Relaxed);
+                *first_sig.lock().unwrap() = Some(unknown[0].signature());
+                *first_case.lock().unwrap() = Some(case.clone());
                 Err(TestCaseError::fail(unknown[0].signature()))
             }
         });
@@ -481,9 +500,18 @@ impl Ctx {
                 let case = serde_json::to_value(&shrunk).unwrap_or(Value::Null);
                 if let Some(f) = unknown.first() {
                     self.violation(sub, f, case, &out.fails);
+                } else if let Some((orig, out, f)) = first_case.lock().unwrap().clone().and_then(|orig| {
+                    // the shrunk case sits on a threshold (e.g. stack depth) and no longer fails:
+                    // fall back to the original failing case when that one reproduces.
+                    let out = self.eval(check, &orig);
+                    let f = out.fails.iter().find(|f| self.is_known(f).is_none()).cloned()?;
+                    Some((orig, out, f))
+                }) {
+                    let case = serde_json::to_value(&orig).unwrap_or(Value::Null);
+                    self.violation(sub, &f, case, &out.fails);
                 } else {
-                    // flaky oracle: the shrunk case no longer fails. Report as a note, not a violation.
-                    self.note(format!("sub {sub}: shrunk case did not reproduce; treated as inconclusive"));
+                    // flaky oracle: neither the shrunk nor the original case fails again. Report as a note, not a violation.
+                    self.note(format!("sub {sub}: a failure ({}) did not reproduce on the shrunk case; treated as inconclusive", first_sig.lock().unwrap().clone().unwrap_or_default()));
                 }
             }
             Err(TestError::Abort(r)) => {
